@@ -251,20 +251,22 @@ def build_results(rng, ps, n_exp, use_dict):
         r = MeanResult(1.0, 2.0, 1.0, 0.0, 2.0, 1.0, 0.0, 2.0, float(p), 1.5)
         exps[e][name] = r._asdict() if (use_dict and j % 2 == 0) else r
         where.append((e, name))
-    for e in range(n_exp):   # metrics outside the selection
-        exps[e]["other"] = MeanResult(1.0, 2.0, 1.0, 0.0, 2.0, 1.0, 0.0, 2.0, 0.5, 0.1)
+    for e in range(n_exp):   # metrics outside the selection; some of their names are substrings of selected names
+        for extra, pv in (("other", 0.5), ("m", 0.001), ("0", 0.002)):
+            exps[e][extra] = MeanResult(1.0, 2.0, 1.0, 0.0, 2.0, 1.0, 0.0, 2.0, pv, 0.1)
     results = {f"e{e}": tt.experiment.ExperimentResult(exps[e]) for e in range(n_exp)}
     return results, where
 
 
-def call_public(method, alpha, results, metrics):
+def call_public(method, alpha, results, metrics, explicit_alpha=True):
     import tea_tasting as tt
+    kw = {"alpha": alpha} if explicit_alpha else {}
     if method == "bh":
-        return tt.adjust_fdr(results, metrics, alpha=alpha)
+        return tt.adjust_fdr(results, metrics, **kw)
     if method == "by":
-        return tt.adjust_fdr(results, metrics, alpha=alpha, arbitrary_dependence=True)
+        return tt.adjust_fdr(results, metrics, arbitrary_dependence=True, **kw)
     proc, corr = method.split("-")
-    return tt.adjust_fwer(results, metrics, alpha=alpha, arbitrary_dependence=(proc == "holm"), method=corr)
+    return tt.adjust_fwer(results, metrics, arbitrary_dependence=(proc == "holm"), method=corr, **kw)
 
 
 def check_public(case):
@@ -287,8 +289,30 @@ def check_public(case):
         if d["pvalue"] != ps[int(name[1:])]:
             fails.append("pvalue changed")
     for e in range(case["n_exp"]):
-        if "other" in out[f"e{e}"]:
-            fails.append("unselected metric present in the output")
+        if set(out[f"e{e}"]) - set(selection):
+            fails.append(f"unselected metrics present in the output: {sorted(set(out[f'e{e}']) - set(selection))}")
+    # the selection may be given as a list, a tuple, a set or (one metric) a string: always the same family
+    import tea_tasting as tt
+    for form in (tuple(selection), set(selection)):
+        o = call_public(method, alpha, results, form)
+        if any(o[f"e{e}"][name]["pvalue_adj"] != out[f"e{e}"][name]["pvalue_adj"] for e, name in where):
+            fails.append(f"selection given as {type(form).__name__} changes the result")
+    e0, n0 = where[0]
+    o1 = call_public(method, alpha, results, n0)
+    rows = [(k, nm) for k, v in o1.items() for nm in v]
+    if rows != [(f"e{e0}", n0)]:
+        fails.append(f"selection given as the string {n0!r} selects {rows}")
+    elif abs(o1[f"e{e0}"][n0]["pvalue_adj"] - ps[int(n0[1:])]) > 1e-12:
+        fails.append(f"a family of one hypothesis ({n0!r} given as a string) has pvalue_adj {o1[f'e{e0}'][n0]['pvalue_adj']} != pvalue")
+    # alpha omitted = the global value in force at the CALL
+    with tt.config_context(alpha=alpha):
+        o2 = call_public(method, alpha, results, selection, explicit_alpha=False)
+    for e, name in where:
+        a, b = o2[f"e{e}"][name], out[f"e{e}"][name]
+        if (a["alpha_adj"], a["null_rejected"], a["pvalue_adj"]) != (b["alpha_adj"], b["null_rejected"], b["pvalue_adj"]):
+            fails.append(f"alpha omitted under config_context(alpha={alpha}) differs from alpha={alpha} given explicitly: "
+                         f"{name} alpha_adj {a['alpha_adj']} vs {b['alpha_adj']}")
+            break
     ref = reference(method, alpha, ps)
     near = _near_boundary(method, alpha, ps)
     for j, ((pa, aa, nr), (rpa, rrej)) in enumerate(zip(got, ref)):
